@@ -113,6 +113,42 @@ fn explore_urls(x: &X) -> X {
     }
 }
 
+/// input: (L (N filter) (N interdomain) (B data)) -> outcome of the items of `url_crawl::LinkIter`;
+/// filter 0 = every quote, 1 = `filters::absolute_path`, 2 = `filters::resource`
+fn urls_iter(x: &X) -> X {
+    fn every(_: &[u8], _: usize) -> bool {
+        true
+    }
+    let l = match x.as_l() {
+        Some(l) if l.len() == 3 => l,
+        _ => return X::bad(),
+    };
+    let (Some(f), Some(inter), Some(data)) = (l[0].as_n(), l[1].as_bool(), l[2].as_b()) else { return X::bad() };
+    let filter: fn(&[u8], usize) -> bool = match f {
+        1 => url_crawl::filters::absolute_path,
+        2 => url_crawl::filters::resource,
+        _ => every,
+    };
+    crate::guarded(|| {
+        let items = url_crawl::LinkIter::new(data, filter, inter)
+            .map(|i| match i {
+                url_crawl::IterItem::Path { path, before, quote_type } => X::L(vec![
+                    X::N(1),
+                    X::b(path),
+                    X::n(before.len()),
+                    X::N(match quote_type {
+                        url_crawl::QuoteType::Single => 0,
+                        url_crawl::QuoteType::Double => 1,
+                        url_crawl::QuoteType::Backtick => 2,
+                    }),
+                ]),
+                url_crawl::IterItem::Last(rest) => X::L(vec![X::N(0), X::b(rest)]),
+            })
+            .collect();
+        X::ok(X::L(items))
+    })
+}
+
 /// input: (L checked (B value)) -> outcome (L (L [max_age]) no_store)
 fn cc_kvarn(x: &X) -> X {
     let l = match x.as_l() {
@@ -129,12 +165,11 @@ fn cc_kvarn(x: &X) -> X {
     let s = std::str::from_utf8(v).expect("ascii");
     crate::guarded(|| match utils::parse::CacheControl::from_kvarn_cache_control(s) {
         Ok(cc) => {
-            // the fields are private: take them from the derived Debug text
-            let d = format!("{cc:?}");
-            let max_age = d.split("max_age: ").nth(1).and_then(|r| {
-                r.strip_prefix("Some(").and_then(|r| r.split(')').next()).and_then(|n| n.parse::<u128>().ok())
-            });
-            let no_store = d.contains("no_store: true");
+            // the fields are private; the public accessors: `as_freshness()` is `max_age`, `store()` is
+            // `!no_store || max_age > 60` — for every value this function yields (`none`: no max-age; a lifetime: no_store
+            // false) `!store()` is `no_store`
+            let max_age = cc.as_freshness().map(u128::from);
+            let no_store = !cc.store();
             X::ok(X::L(vec![X::opt(max_age.map(X::N)), X::bool(no_store)]))
         }
         Err(e) => {
@@ -157,6 +192,7 @@ pub fn dispatch(comp: &str, x: &X) -> Option<X> {
         "pathquery" => pathquery(x),
         "cc.kvarn" => cc_kvarn(x),
         "explore.urls" => explore_urls(x),
+        "urls.iter" => urls_iter(x),
         _ => return None,
     })
 }
